@@ -25,6 +25,27 @@ static void run(const char* name, FILE* out) {
     }
 }
 
+// The verdict must not depend on what was looked up before ("for every byte and every packet type" - also for every
+// history of earlier lookups): every byte is looked up again right after each category accepted it.
+template <rc::category A, rc::category B>
+static void after(const char* a, const char* b, FILE* out) {
+    for (int x = 0; x < 256; ++x) {
+        auto first = boost::mqtt5::to_reason_code<A>((uint8_t) x);
+        if (!first.has_value()) continue;
+        fprintf(stderr, "PROBE %s %d after %s\n", b, x, a); fflush(stderr);
+        auto r = boost::mqtt5::to_reason_code<B>((uint8_t) x);
+        fprintf(out, "{\"cat\":\"%s\",\"b\":%d,\"has\":%d,\"val\":%d}\n", b, x, r.has_value() ? 1 : 0, r.has_value() ? (int) r->value() : -1);
+    }
+}
+template <rc::category A>
+static void after_all(const char* a, FILE* out) {
+    after<A, rc::category::connack>(a, "connack", out); after<A, rc::category::puback>(a, "puback", out);
+    after<A, rc::category::pubrec>(a, "pubrec", out); after<A, rc::category::pubrel>(a, "pubrel", out);
+    after<A, rc::category::pubcomp>(a, "pubcomp", out); after<A, rc::category::suback>(a, "suback", out);
+    after<A, rc::category::unsuback>(a, "unsuback", out); after<A, rc::category::auth>(a, "auth", out);
+    after<A, rc::category::disconnect>(a, "disconnect", out);
+}
+
 int main(int argc, char** argv) {
     FILE* out = argc > 1 ? fopen(argv[1], "w") : stdout;
     if (!out) return 2;
@@ -37,6 +58,11 @@ int main(int argc, char** argv) {
     run<rc::category::unsuback>("unsuback", out);
     run<rc::category::auth>("auth", out);
     run<rc::category::disconnect>("disconnect", out);
+    after_all<rc::category::connack>("connack", out); after_all<rc::category::puback>("puback", out);
+    after_all<rc::category::pubrec>("pubrec", out); after_all<rc::category::pubrel>("pubrel", out);
+    after_all<rc::category::pubcomp>("pubcomp", out); after_all<rc::category::suback>("suback", out);
+    after_all<rc::category::unsuback>("unsuback", out); after_all<rc::category::auth>("auth", out);
+    after_all<rc::category::disconnect>("disconnect", out);
     fclose(out);
     return 0;
 }
